@@ -166,10 +166,10 @@ DEEP_SIZES = {2: 10, 3: 10, 4: 9, 5: 8, 6: 7}
 def deep_cases(draw):
     """The search algorithms at the largest sizes the exhaustive oracle still covers, on evenly spread values: the region where
     nested pruning (SNP / RNP recursion below the first level, CKK and complete-greedy bounds deep in the tree) is exercised."""
-    alg = draw(st.sampled_from(["snp", "snp", "rnp", "rnp", "ckk", "cg"]))
-    k = draw(st.sampled_from([3, 4, 4, 4, 5, 5]))
-    n = DEEP_SIZES[k] - draw(st.sampled_from([0, 0, 0, 1]))
-    profile = draw(st.sampled_from(["uniform-200", "uniform-200", "uniform-40", "uniform-10^6", "near-equal-large"]))
+    alg = draw(st.sampled_from(["snp", "snp", "snp", "rnp", "rnp", "ckk", "cg"]))
+    k = draw(st.sampled_from([3, 4, 4, 4, 4, 5]))
+    n = DEEP_SIZES[k] - draw(st.sampled_from([0, 0, 0, 0, 0, 0, 0, 1]))
+    profile = draw(st.sampled_from(["uniform-200", "uniform-200", "uniform-40", "uniform-10^6", "near-equal-large", "near-equal-large"]))
     seed = draw(st.integers(0, 2 ** 40))
     if profile == "uniform-200":
         values = S.splitmix(seed, n, 1, 200)
@@ -231,6 +231,27 @@ def valid_two_way(case):
             and sum(v) < 2 ** 53 and case.get("alg") in ("ckk", "snp", "rnp", "cg", "dp", "cbldm"))
 
 
+@st.composite
+def nested_cases(draw):
+    """SNP and RNP with 4 bins and 9 items: the smallest shape in which their recursion has a nested level below the first one
+    (a tree of candidate first bins inside a tree of candidate first bins), on evenly spread and on near-equal large values."""
+    case = draw(deep_cases())
+    seed = draw(st.integers(0, 2 ** 40))
+    profile = draw(st.sampled_from(["uniform-200", "uniform-200", "uniform-10^6", "near-equal-large", "near-equal-large"]))
+    if profile == "uniform-200":
+        values = S.splitmix(seed, 9, 1, 200)
+    elif profile == "uniform-10^6":
+        values = S.splitmix(seed, 9, 1, 10 ** 6)
+    else:
+        base = draw(st.sampled_from([10 ** 6, 2 ** 24, 10 ** 9]))
+        values = [base * m + d for m, d in zip(S.splitmix(seed, 9, 1, 4), S.splitmix(seed + 1, 9, 0, 50))]
+    out = {"alg": draw(st.sampled_from(["snp", "snp", "rnp"])), "values": values, "numbins": 4, "pres": "list", "nseed": 0,
+           "profile": "nested-" + profile}
+    if case.get("out"):
+        out["out"] = case["out"]
+    return out
+
+
 def valid_deep(case):
     if not cases.valid_partition_case(dict(case, alg="greedy")):
         return False
@@ -260,11 +281,15 @@ def legs(tier):
             "hypothesis: snp / rnp / ckk / complete greedy at the largest sizes the oracle covers (10 items x 3 bins, 9 x 4, 8 x 5) on "
             "evenly spread values (1..40, 1..200, 1..10^6, near-equal large values), and with 5-6 bins on 6-8 small repeated values; a third of the "
             "cases through the sums-only output type (another bins-manager); same oracle and non-triviality rule",
-            strategy=deep_cases(), n_quick=1600, n_thorough=40000, valid=valid_deep, floor=0.1),
+            strategy=deep_cases(), n_quick=1400, n_thorough=40000, valid=valid_deep, floor=0.1),
+        Leg("nested-recursion", evaluate,
+            "hypothesis: snp / rnp with exactly 4 bins and 9 items (the smallest shape with a nested recursion level) on values 1..200, 1..10^6 "
+            "and near-equal large values; same oracle and non-triviality rule",
+            strategy=nested_cases(), n_quick=1400, n_thorough=30000, valid=valid_deep, floor=0.1),
         Leg("two-way-large", evaluate,
             "hypothesis: two bins, 11-16 items (complete greedy <= 14), values 1..200 / 1..1000 / near-equal large / planted: beyond the "
             "exhaustive envelope, with ground truth from a subset-sum DP (bitset); ckk, snp, rnp, complete greedy, dp and cbldm (default bound); "
-            "same non-triviality rule", strategy=two_way_large_cases(), n_quick=700, n_thorough=20000, valid=valid_two_way, floor=0.3),
+            "same non-triviality rule", strategy=two_way_large_cases(), n_quick=500, n_thorough=20000, valid=valid_two_way, floor=0.3),
         Leg("known-rnp>=6", evaluate, "rnp with 6-7 bins: the region of the recorded known finding",
             strategy=rnp_known_region(), n_quick=40, n_thorough=400, shards=1, valid=cases.valid_partition_case),
         fuzz_target.fuzz_leg(PROP, 60000, evaluate, valid_deep),
